@@ -1407,7 +1407,11 @@ class Scene(Geometry3D):
         appended : trimesh.Scene
            Scene with geometry from both scenes
         """
-        result = append_scenes([self, other], common=[self.graph.base_frame])
+        result = append_scenes(
+            [self, other],
+            common=[self.graph.base_frame],
+            base_frame=self.graph.base_frame,
+        )
         return result
 
 
@@ -1503,7 +1507,11 @@ def append_scenes(iterable, common=None, base_frame="world"):
 
         # if a node is consumed and isn't one of the nodes
         # we're going to hold common between scenes remap it
-        if node not in common and node in consumed:
+        # a node that isn't the base frame of its scene but is named
+        # like the base frame of the result also has to be renamed
+        if (node not in common and node in consumed) or (
+            node == base_frame and base_frame in map_node.values()
+        ):
             # generate a name not in consumed
             name = node + util.unique_id()
             map_node[node] = name
@@ -1536,6 +1544,9 @@ def append_scenes(iterable, common=None, base_frame="world"):
         # remap nodes and edges so duplicates won't
         # stomp all over each other
         map_node = {}
+        if s.graph.base_frame != base_frame:
+            # the base frame of every scene is the base frame of the result
+            map_node[s.graph.base_frame] = base_frame
         # the nodes used in this scene
         current = set()
         for a, b, attr in s.graph.to_edgelist():
